@@ -193,6 +193,10 @@ def check_refusals():
         (lambda: Recipe((single, Reference(SubRecipe(Ingredient(SVS("other body")), (SVS("x"),))))), "ReferenceToInvalidSubRecipeError"),
         (lambda: Recipe((multi, Reference(SubRecipe(Ingredient(SVS("b")), (SVS("x"), SVS("y"))), 1))), "ReferenceToInvalidSubRecipeError"),
         (lambda: Recipe((Reference(SubRecipe(Ingredient(SVS("a")), (SVS("x"),), False)),), Recipe((single,))), "ReferenceToInvalidSubRecipeError"),
+        (lambda: Recipe((Step(SVS("s"), (SubRecipe(Reference(single), (SVS("inner"),)),)),)), "ReferenceToInvalidSubRecipeError"),
+        (lambda: Recipe((Step(SVS("s"), (Ingredient(SVS("b")), SubRecipe(Step(SVS("t"), (Reference(single),)), (SVS("inner"),), False))), single)), "ReferenceToInvalidSubRecipeError"),
+        (lambda: Recipe((Step(SVS("s"), (SubRecipe(Reference(single), (SVS("inner"),)),)),), Recipe((Ingredient(SVS("q")),))), "ReferenceToInvalidSubRecipeError"),
+        (lambda: Recipe((single, Step(SVS("s"), (SubRecipe(Reference(single), (SVS("inner"),)),)))), "ok"),
         (lambda: Recipe((single, Reference(single))), "ok"),
         (lambda: Recipe((Reference(single),), Recipe((single,))), "ok"),
         (lambda: Recipe((multi, Step(SVS("s"), (Reference(multi, 1), Reference(multi, 0))))), "ok"),
